@@ -288,8 +288,18 @@ pub fn check_c04(obs: &Observation) -> V {
                 }
             }
             if known && r.dropped_at.is_none() && r.closed_at.is_some() && obs.result.is_some() && linked == Some(true) {
+                // classified cause: the remote had gone away and attached again under the same id; the
+                // write task knows a remote by its id only, so the failure of a write to the *earlier*
+                // channel removed the new registration and closed the new channel under an open link
+                let reattached = r.sent.iter().any(|(_, s)| matches!(s, Step::Detach));
+                let removed_for_a_failed_write = r.completion_reason.as_deref() == Some("ChannelClosed");
                 add(
-                    format!("as: link left open when the agent {} lane-kind={}", if matches!(obs.result, Some(Ok(()))) { "stopped" } else { "failed" }, kind),
+                    format!(
+                        "as: link left open when the agent {} lane-kind={}{}",
+                        if matches!(obs.result, Some(Ok(()))) { "stopped" } else { "failed" },
+                        kind,
+                        if reattached && removed_for_a_failed_write { " [re-attached id: the failed write to its earlier channel removed the new registration]" } else { "" }
+                    ),
                     format!("remote {} lane {}: channel closed by the agent without a final unlinked", ri, lane),
                 );
             }
